@@ -174,6 +174,13 @@ def session_ops(kind):
             pass
 
     ops["reset_rejected"] = reset_rejected
+
+    def write_into_time(c):
+        t = c.obj.time
+        t[len(t) // 3:] -= t[len(t) // 3]
+        t *= 2.0
+
+    ops["write_into_time"] = write_into_time
     ops["read_values"] = lambda c: c.obj.values
     ops["read_derived"] = read_derived
     if kind == "AccSignal":
@@ -182,6 +189,7 @@ def session_ops(kind):
         ops["set_zero_residual_velocity"] = call("set_zero_residual_velocity")
         ops["set_zero_residual_displacement"] = call("set_zero_residual_displacement")
         ops["set_zero_residual_displacement_and_velocity"] = call("set_zero_residual_displacement_and_velocity")
+        ops["set_zero_residual_dv_timezone"] = call("set_zero_residual_displacement_and_velocity", timezone=(0.07, 0.31))
         ops["correct_me"] = call("correct_me")
         ops["remove_rolling_average_velocity"] = call("remove_rolling_average", mtype="velocity", freq_window=12)
     return ops
